@@ -508,7 +508,59 @@ def corrupt_item(arg):
     return acc
 
 
+def piff_item(arg):
+    """playready__piff / playready__version forwarded through the manifest mean the same at the media end: the PIFF
+    sample-encryption uuid box is in the fragments of an encrypted track exactly when PIFF is on (the default) or the
+    PlayReady version is 1.0."""
+    template, mode, piff, ver = arg
+    from mc import bmff
+    w = W.World.shared()
+    w.begin_item()
+    acc = core.Acc()
+    W.set_now(NOW)
+    q = {'drm': 'playready'}
+    if piff is not None:
+        q['playready__piff'] = piff
+    if ver is not None:
+        q['playready__version'] = ver
+    if mode == 'live':
+        q['depth'] = '30'
+    url = crawl.manifest_url(mode, 'bbb', template, q)
+    r = w.get(url)
+    acc.count('evaluations')
+    acc.count('transitions')
+    rec = {'kind': 'piff', 'arg': list(arg)}
+    if r.status != 200:
+        acc.outcome(('piff-manifest', r.status))
+        return acc
+    doc = mpd.Mpd(r.body, 'http://localhost' + url.split('?')[0])
+    st = crawl.Stored.fixture('bbb')
+    want = (piff in (None, '1')) or ver == '1.0'
+    for rep in doc.all_reps():
+        if rep.id not in st.files or not st.files[rep.id]['init'].encrypted:
+            continue
+        segs = doc.segments(rep, NOW)
+        for sg in segs[:2]:
+            sr = w.get(mpd.split_url(sg['url']))
+            acc.count('evaluations')
+            acc.count('transitions')
+            if sr.status != 200:
+                acc.outcome(('piff-segment', sr.status))
+                continue
+            frag = bmff.Fragment(sr.body, st.files[rep.id]['init'])
+            have = frag.piff_box() is not None
+            acc.state((template, mode, piff, ver, rep.id, sg['n']))
+            acc.nontriv((template, mode, piff, ver, rep.id, sg['n']))
+            if have != want:
+                acc.violation(sig('piff-box', 'present' if have else 'absent', rep.content_type),
+                              f'{url}: {rep.id} segment {sg["n"]}: PIFF sample-encryption box {"present" if have else "absent"}; '
+                              f'playready__piff={piff}, playready__version={ver} mean {"present" if want else "absent"}', rec)
+    return acc
+
+
 def _dispatch(item):
+    if item[0] == 'piff':
+        return piff_item(item[1])
     if item[0] == 'corrupt':
         return corrupt_item(item[1])
     if item[0] == 'int' and item[1][0] == 'legacy':
@@ -520,6 +572,9 @@ def _dispatch(item):
 
 def run(ctx):
     items = [('unit', None)] + [('int', it) for it in plan(ctx.tier)]
+    for template, mode in (('hand_made', 'vod'), ('hand_made', 'live'), ('manifest_e', 'live')):
+        for piff, ver in ((None, None), ('0', None), ('1', None), ('0', '1.0'), ('0', '4.0'), ('1', '2.0'), (None, '3.0')):
+            items.append(('piff', (template, mode, piff, ver)))
     for template in ('hand_made', 'manifest_e'):
         for frames in (None, '0', '1', '2', '6'):
             items.append(('corrupt', (template, frames)))
@@ -534,6 +589,9 @@ def run(ctx):
 
 
 def replay(record):
+    if record.get('kind') == 'piff':
+        acc = piff_item(tuple(record['arg']))
+        return [(s, v[0]['what']) for s, v in acc.viol.items()]
     if record.get('kind') == 'corrupt':
         acc = corrupt_item((record['template'], record['frames']))
         return [(s, v[0]['what']) for s, v in acc.viol.items()]
